@@ -72,9 +72,11 @@ type c05Req struct {
 	Tok    string
 	Method string
 	Path   string
+	Two    string // value of the second constrained header (kind header2)
+	Role   string // value of the third constrained header (kind header2)
 }
 
-var c05Kinds = []string{"static", "optional-short", "optional-long", "placeholder", "regex", "matchall-capture", "final-matchall", "header", "any", "panic", "notfound", "render-json", "render-xml", "render-text", "query-cookie", "static-file", "static-file-2", "grouped"}
+var c05Kinds = []string{"static", "optional-short", "optional-long", "placeholder", "regex", "matchall-capture", "final-matchall", "header", "any", "panic", "notfound", "render-json", "render-xml", "render-text", "query-cookie", "static-file", "static-file-2", "grouped", "notfound-after-capture", "header2", "static-file-big"}
 
 // c05Dir holds the file served by the Static middleware of the shared instance.
 var c05Dir string
@@ -84,6 +86,11 @@ func c05Fixture(dir string) {
 	_ = os.WriteFile(filepath.Join(dir, "hello.txt"), []byte("static file content, the same for everybody"), 0o644)
 	_ = os.MkdirAll(filepath.Join(dir, "sub"), 0o755)
 	_ = os.WriteFile(filepath.Join(dir, "sub", "hello.txt"), []byte("another file that merely has the same name"), 0o644)
+	big := make([]byte, 100000)
+	for i := range big {
+		big[i] = byte('a' + (i*7+i/251)%26)
+	}
+	_ = os.WriteFile(filepath.Join(dir, "big.bin"), big, 0o644)
 	c05Dir = dir
 }
 
@@ -125,6 +132,15 @@ func c05MakeReq(kind, tok string, rng *rand.Rand) c05Req {
 		r.Path = "/assets/hello.txt"
 	case "static-file-2":
 		r.Path = "/assets/sub/hello.txt"
+	case "static-file-big":
+		r.Path = "/assets/big.bin"
+	case "notfound-after-capture":
+		r.Path = "/g1/" + tok + "/nope" // binds {tok} on the way, then finds nothing
+	case "header2":
+		// three constraints; different requests fail different ones (or none)
+		r.Path = "/h2/" + tok
+		r.Two = []string{"ok", "ok", "no", ""}[rng.Intn(4)]
+		r.Role = []string{"admin", "admin", "guest"}[rng.Intn(3)]
 	case "grouped":
 		r.Path = "/g1/" + tok + "/g2/leaf"
 	}
@@ -229,6 +245,7 @@ func buildC05(s *c05Sched) *flamego.Flame {
 	f.Get("/m/{rest: **, capture: 3}/end", echo("matchall-capture")...)
 	f.Get("/f/{tok}/{rest: **}", echo("final-matchall")...)
 	f.Get("/h/{tok}", echo("header")...).Headers("X-Tok", "^t")
+	f.Get("/h2/{tok}", echo("header2")...).Headers("X-Tok", "^t", "X-Two", "^ok$", "X-Role", "^admin$")
 	f.Any("/any/{tok}", echo("any")...)
 	f.Get("/panic/{tok}", func(c flamego.Context) {
 		s.perturb(c.Param("tok"), 1)
@@ -272,6 +289,10 @@ type c05Resp struct {
 func c05Serve(f *flamego.Flame, rq c05Req) c05Resp {
 	spy := &retSpy{h: http.Header{}}
 	req := &http.Request{Method: rq.Method, URL: &url.URL{Path: rq.Path, RawQuery: "tok=" + rq.Tok + "&n=12"}, Header: http.Header{"X-Tok": {rq.Tok}, "Cookie": {"sid=" + rq.Tok}, "X-Real-Ip": {rq.Tok}}, RequestURI: rq.Path, Body: io.NopCloser(strings.NewReader("B" + rq.Tok))}
+	if rq.Kind == "header2" {
+		req.Header.Set("X-Two", rq.Two)
+		req.Header.Set("X-Role", rq.Role)
+	}
 	var out c05Resp
 	func() {
 		defer func() { out.pan = recover() }()
